@@ -48,6 +48,12 @@
 //	JwtRsaSsaPss     as JwtRsaSsaPkcs1 (salt length is the digest length, salt_len is set accordingly)
 //	JwtMlDsa         algorithm("ML-DSA-44"..) instance kid_strategy custom_kid kid has_kid key_value public_key
 //	PrfBasedDeriver  prf_type prf(map: Fields of the PRF key) derived_type derived(map: Fields of the derived-key parameters, without material)
+//	                 derived_usable (bool: a key with the derived parameters gives a working primitive)
+//
+// public_key of the post-quantum types is DERIVED by the generator, not read from the Tink object: ML-KEM
+// and X-Wing (Hpke) with crypto/mlkem, crypto/sha3, crypto/ecdh (hybrid.go: kemPublic), ML-DSA (MlDsa,
+// JwtMlDsa, the ML-DSA half of CompositeMlDsa) with internal/ref/mldsaref (sig.go: mlDsaPublic).  SLH-DSA
+// key pairs come from the library's internal KeyGen (see above).
 //
 // Name spellings: hash "SHA1","SHA224","SHA256","SHA384","SHA512"; curve "NIST_P256","NIST_P384",
 // "NIST_P521","X25519"; encoding "DER","IEEE_P1363"; point_format "COMPRESSED","UNCOMPRESSED",
@@ -75,7 +81,8 @@
 //	AesGcmHkdfStreaming  key_size not 16/32                                   (primitiveConstructor: ValidateAESKeySize(main key))
 //	AesCtrHmacStreaming  key_size not 16/32                                   (same)
 //	PrfBasedDeriver      PRF key not HkdfPrf, HkdfPrf hash not SHA256/512 or key < 32 (FailsAt "factory");
-//	                     derived parameters of a type without key deriver     (FailsAt "use": keyderivation.New works, DeriveKeyset fails)
+//	                     derived parameters of a type without key deriver     (FailsAt "use": keyderivation.New works, DeriveKeyset fails;
+//	                     every key type of AllTypes() can appear here, see deriver.go)
 //
 // DrawUsable never produces any of the above.  It can still produce keys that work but cannot be
 // serialized (Info.NoSerialization): RSA-SSA-PSS keys with salt_len 0.
@@ -90,6 +97,13 @@
 //	                 Usable/FailsAt follow the PRF key as for every deriver: keyderivation.New and
 //	                 DeriveKeyset work on a handle built with keyset.Manager, the derived AES-GCM key is
 //	                 itself not usable
+//
+// # Serializable, but not Equal after parsing (Info.Lossy)
+//
+//	PrfBasedDeriver  derived parameters are JWT parameters with kid strategy CUSTOM (only drawn when unusable
+//	                 combinations are asked for): the key format embeds their template, which is the template
+//	                 of IGNORED-kid parameters (known finding C12 jwt-custom-kid-parameters-lossy:*).  Callers
+//	                 that compare keys after a serialization round trip must leave such keys out.
 //
 // Not generated at all: public keys that no private key constructor accepts (RSA public keys with an
 // exponent other than 65537: NewParameters/NewPublicKey accept odd e in [65537, 2^31-1], every
@@ -162,9 +176,10 @@ type Info struct {
 	Usable bool
 	// FailsAt says where a !Usable key fails ("" when Usable).
 	FailsAt string
-	// Lossy is never set any more (kept for API stability).  It marked keys whose proto serialization
-	// dropped parameters (AES-GCM with iv_size != 12 or tag_size != 16); since repo commit 09abf34
-	// those are refused by the serializer and carry NoSerialization instead.
+	// Lossy: SerializeKey and ParseKey succeed, but the parsed key is NOT Equal to this one.  Set only
+	// for a PrfBasedDeriver whose derived-key parameters are JWT parameters with kid strategy CUSTOM
+	// (see the package comment).  (Until repo commit 09abf34 it marked AES-GCM keys with iv_size != 12
+	// or tag_size != 16; those are refused by the serializer now and carry NoSerialization.)
 	Lossy bool
 	// NoSerialization is true when protoserialization.SerializeKey refuses the key although the
 	// constructors accepted it: RSA-SSA-PSS with salt_len 0 ("salt length zero cannot be serialized"),
